@@ -160,6 +160,10 @@ def gen_case(rnd, spec):
         elems.insert(0, [tag, "svcF", {"label": "svcF", "period": 0.05}])
     if spec["case_index"] == 3 and spec["shard"] == 15:
         forced, kind, fmt = "bad_logging", "invalid", "yaml"
+    if spec["case_index"] == 4 and spec["shard"] == 2:
+        forced, kind, fmt = "second_document", "invalid", "yaml"
+    if spec["case_index"] == 4 and spec["shard"] in (0, 1):
+        kind, fmt = "valid", "yaml"  # the large file, see below
     slow = spec["case_index"] == 0 and spec["shard"] in (0, 1)  # the recorded finding, exercised on every run
     if slow:
         kind = "valid"
@@ -192,14 +196,14 @@ def gen_case(rnd, spec):
     text = yaml_text(rnd, elems, case["logging"], case["extra"]) if fmt == "yaml" else python_text(rnd, elems)
     if kind == "invalid":
         defect = rnd.choice(["unknown_section", "missing_pipeline", "ctor_error", "syntax", "unknown_tag", "py_raises", "bad_extension", "no_extension", "missing_file",
-                             "python_tag", "bad_logging"])
-        if fmt == "python" and defect in ("unknown_section", "missing_pipeline", "syntax", "unknown_tag", "python_tag", "bad_logging"):
+                             "python_tag", "bad_logging", "second_document"])
+        if fmt == "python" and defect in ("unknown_section", "missing_pipeline", "syntax", "unknown_tag", "python_tag", "bad_logging", "second_document"):
             defect = rnd.choice(["py_raises", "ctor_error", "bad_extension"])
         if fmt == "yaml" and defect == "py_raises":
             defect = "unknown_tag"
         if forced == "compiled_config":
             defect = "bad_extension"
-        if forced in ("broken_element", "pipeline_not_a_list", "bad_logging"):
+        if forced in ("broken_element", "pipeline_not_a_list", "bad_logging", "second_document"):
             defect = forced
         elif rnd.random() < 0.12 and fmt == "yaml":
             defect = rnd.choice(["broken_element", "pipeline_not_a_list"])
@@ -230,6 +234,9 @@ def gen_case(rnd, spec):
             text = text.replace("pipeline:\n", "pipeline:\n  - !NoSuchPlugin {a: 1}\n", 1)
         elif defect == "python_tag":
             text = text.replace("pipeline:\n", "pipeline:\n  - !!python/object/apply:os.getcwd []\n", 1)
+        elif defect == "second_document":
+            # a complete, valid configuration followed by a document separator and something else: one file is one configuration
+            text += rnd.choice(["---\npipeline:\n  - !VPool\n", "---\nlogging: {version: 1}\n", "---\n[this, is, {not: a configuration}]\n", "--- just text\n", "...\n---\nvextra: {a: 1}\n"])
         elif defect == "bad_logging":
             # a logging section that is there but is no logging configuration: empty, null, a list, without a version
             bad = rnd.choice(["logging:\n", "logging: {}\n", "logging: []\n", "logging: ~\n", "logging: {handlers: {}}\n", "logging: 0\n", "logging: ''\n"])
@@ -245,6 +252,11 @@ def gen_case(rnd, spec):
         elif defect == "missing_file":
             case["missing_file"] = True
         case["defect"] = defect
+    if fmt == "yaml" and case["kind"] == "valid" and (rnd.random() < 0.15 or (spec["case_index"] == 4 and spec["shard"] in (0, 1))):
+        # a file of a realistic size: commented, longer than any read buffer
+        pad = "".join("# %s setting %d: %s\n" % (rnd.choice(["site", "pool", "legacy"]), i, "x" * rnd.randint(20, 70)) for i in range(rnd.choice([120, 400])))
+        text = {"top": pad + text, "bottom": text + pad, "both": pad + text + pad}[rnd.choice(["top", "bottom", "both"])]
+        case["large"] = True
     case["text"] = text
     return case
 
@@ -340,6 +352,8 @@ def execute(case, result):
             bad("traceback on the log after a graceful stop")
         if case["logging"]:
             result.count("valid_with_logging_section")
+        if case.get("large"):
+            result.count("valid_yaml_files_larger_than_8_kB")
     else:
         if run.timed_out:
             bad("the daemon stayed up (idle) for 25 s instead of exiting")
@@ -376,7 +390,7 @@ def finish(total, tier):
     need = ["daemons_valid", "daemons_invalid", "daemons_failing", "configs_yaml", "configs_python", "services_checked_trio",
             "services_checked_asyncio", "services_checked_threading", "failing_services_after_start", "valid_with_logging_section", "falsy_services_checked", "private_waiter_services_checked", "services_in_large_injected_configs",
             "failing_services_with_base_exception_threading", "defect_unknown_extension_with_byte_compiled_config",
-            "defect_broken_element", "defect_pipeline_not_a_list", "defect_bad_logging", "failing_services_returning_a_false_value_trio", "failing_services_returning_a_false_value_asyncio", "python_configs_named_like_a_module_they_import", "configs_with_more_than_one_dot_in_the_file_name", "python_configs_defining_a_dataclass", "services_of_a_class_decorated_twice_checked", "services_that_absorb_one_cancellation_checked", "large_configs_of_mostly_trio_services"]
+            "defect_broken_element", "defect_pipeline_not_a_list", "defect_bad_logging", "defect_second_document", "valid_yaml_files_larger_than_8_kB", "failing_services_returning_a_false_value_trio", "failing_services_returning_a_false_value_asyncio", "python_configs_named_like_a_module_they_import", "configs_with_more_than_one_dot_in_the_file_name", "python_configs_defining_a_dataclass", "services_of_a_class_decorated_twice_checked", "services_that_absorb_one_cancellation_checked", "large_configs_of_mostly_trio_services"]
     for name in need:
         if not total.counters.get(name) and not total.violations:
             total.inconc("monitor never observed: " + name)
